@@ -99,6 +99,7 @@ class Scenario:
 
         ctx = self.ctx
         must_abandon = []
+        must_fail = []
         if a == "R":
             self.issue()
         elif a in "APHFG":
@@ -155,13 +156,19 @@ class Scenario:
             conn = self.newest_open_secure()
             if conn is not None and not any(r["conn"] is conn and r["answered"] == 1 for r in self.received):
                 conn.transport.pause_reading()
+                before = set(self.reqs)
+                idle = not any(not rq["task"].done() for rq in self.reqs.values())
                 self.issue()
                 await vloop.settle()
                 conn.transport.abort()
                 ctx.count("peer_resets")
+                if idle:
+                    # nothing was queued ahead, so the new request was written to this very connection
+                    must_fail = [u for u in self.reqs if u not in before]
         elif a == "X":
             conn = self.newest_open_secure()
             if conn is not None:
+                must_fail = [r["id"] for r in self.received if r["conn"] is conn and r["answered"] < 2 and not self.reqs[r["id"]]["task"].done()]
                 conn.close()
         elif a == "U":
             conn = self.newest_open_secure()
@@ -170,6 +177,16 @@ class Scenario:
                 conn.send(conn.http(200, body, "application/hap+json"))
                 ctx.count("unsolicited_sent")
         await vloop.settle()
+        # the connection dropped: every request outstanding on it fails at once (not after its own 30 s timer)
+        for uid in must_fail:
+            if not self.reqs[uid]["task"].done():
+                self.ctx.violation(
+                    "outstanding-request-not-failed-on-connection-loss",
+                    f"after action {a} in schedule {self.schedule}: request {uid} is still pending at the quiescent point after the connection was lost",
+                    {"schedule": self.schedule, "api": self.api},
+                )
+            else:
+                ctx.count("failed_promptly_on_loss")
         # a request that timed out / was cancelled while in flight: its connection must have been abandoned
         for conn in must_abandon:
             if conn.is_open:
